@@ -454,6 +454,62 @@ func concScenario(rng *RNG) string {
 		G, injected, okN, failN, hungN, hung, postFail, unavailable, dup, wrong)
 }
 
+// probeAfterDeath (C09): region B is being established on connection C (its probe is in flight)
+// when C dies; a request on region A (also on C) declares C dead; then B's probe answer, sent
+// before the death, arrives and B becomes available on the dead connection. Requests on B must
+// still get through (the client has to notice and re-establish B).
+func probeAfterDeath() string {
+	gohbase.VerifSetSleepOverride(fastBackoff)
+	defer gohbase.VerifSetSleepOverride(nil)
+	c := newSimCluster()
+	c.probeHold = map[string]chan struct{}{}
+	c.addRegion(nil, []byte("t"), nil, []byte("m"), "rs1:1")
+	c.addRegion(nil, []byte("t"), []byte("m"), nil, "rs1:1")
+	sc := newSimClient(c)
+	defer sc.cl.Close()
+	get := func(k string, d time.Duration) string {
+		ctx, cancel := context.WithTimeout(context.Background(), d)
+		defer cancel()
+		g, _ := hrpc.NewGet(ctx, []byte("t"), []byte(k))
+		_, err := sc.cl.Get(g)
+		return classOf(err)
+	}
+	r1 := get("a", 5*time.Second) // A established on the first connection to rs1
+	c.mu.Lock()
+	hold := make(chan struct{})
+	c.probeHold["rs1:1"] = hold
+	c.mu.Unlock()
+	bRes := make(chan string, 1)
+	go func() { bRes <- get("x", 10*time.Second) }() // B: lookup, same connection, probe parked
+	time.Sleep(20 * time.Millisecond)
+	c.mu.Lock()
+	for _, s := range c.conns {
+		if s.addr == "rs1:1" {
+			atomic.StoreInt32(&s.closed, 1) // the connection dies
+			atomic.StoreInt32(&s.failed, 1)
+			atomic.StoreInt32(&s.deadOK, 1)
+		}
+	}
+	delete(c.probeHold, "rs1:1") // probes on new connections are answered normally
+	c.mu.Unlock()
+	r2 := get("b", 5*time.Second) // a request on A notices, declares the connection dead, recovers
+	close(hold)                   // B's probe answer arrives now
+	r3 := "blocked"
+	select {
+	case r3 = <-bRes:
+	case <-time.After(12 * time.Second):
+	}
+	r4 := get("y", 5*time.Second)
+	settle()
+	unavailable := 0
+	for _, ok := range sc.v.VerifAvailability() {
+		if !ok {
+			unavailable++
+		}
+	}
+	return fmt.Sprintf("c09 script probe-after-death %s,%s,%s,%s unavailable=%d", r1, r2, r3, r4, unavailable)
+}
+
 // ---- C13 / C19: wait states with real time ------------------------------------------------
 
 type waitState struct {
@@ -583,6 +639,107 @@ func waitScenario(state waitState, api, mode string) string {
 		res = "early:" + early
 	}
 	return fmt.Sprintf("c13 wait %s %s %s %d %s", state.name, api, mode, lat.Microseconds(), res)
+}
+
+// scanOpenScenario (C13): a scan has a region scanner open at the server (the first Next returned a
+// row); then every regionserver goes silent. The scan's context is cancelled either while the
+// second Next is blocked or between two Next calls; Next must return the context error promptly
+// (and not wait for the server while releasing the region scanner).
+func scanOpenScenario(between bool) string {
+	gohbase.VerifSetSleepOverride(nil)
+	c := buildCluster(NewRNG(3, "c13scan"))
+	c.scanRows = true
+	sc := newSimClient(c, gohbase.RegionLookupTimeout(time.Second))
+	defer sc.cl.Close()
+	ctx, cancel := context.WithCancel(context.Background())
+	defer cancel()
+	s, _ := hrpc.NewScanRange(ctx, []byte("t"), []byte("a"), []byte("z"), hrpc.NumberOfRows(1))
+	sn := sc.cl.Scan(s)
+	name := "scan-open-blocked"
+	if between {
+		name = "scan-open-between"
+	}
+	if _, err := sn.Next(); err != nil {
+		return fmt.Sprintf("c13 wait %s scan cancel 0 early:%s", name, classOf(err))
+	}
+	c.mu.Lock()
+	for _, a := range simAddrs {
+		c.silent[a] = true
+	}
+	c.mu.Unlock()
+	resCh := make(chan string, 1)
+	var t0 time.Time
+	if between {
+		cancel()
+		t0 = time.Now()
+		go func() { _, err := sn.Next(); resCh <- classOf(err) }()
+	} else {
+		go func() { _, err := sn.Next(); resCh <- classOf(err) }()
+		time.Sleep(40 * time.Millisecond)
+		t0 = time.Now()
+		cancel()
+	}
+	select {
+	case r := <-resCh:
+		return fmt.Sprintf("c13 wait %s scan cancel %d %s", name, time.Since(t0).Microseconds(), r)
+	case <-time.After(2 * time.Second):
+		return fmt.Sprintf("c13 wait %s scan cancel 2000000 blocked", name)
+	}
+}
+
+// busyQueueScenario (C13): at the level of one region connection. The batching goroutine is stuck
+// inside a Write (the peer does not read); a second batchable call is handed to the connection and
+// waits for the send queue; its context ends: QueueRPC must return promptly.
+func busyQueueScenario(mode string) string {
+	s := newConnScn(NewRNG(4, "c13busy"), 5)
+	if s.broken != "" {
+		return "c13 wait busy-send-queue queue " + mode + " 0 early:" + s.broken
+	}
+	first := s.newCall(false, false)
+	go s.rc.QueueRPC(first.call)
+	settle() // the writer is now parked inside conn.Write with the first multi
+	ctx, cancel := context.WithCancel(context.Background())
+	if mode == "deadline" {
+		ctx, cancel = context.WithTimeout(context.Background(), 40*time.Millisecond)
+	}
+	defer cancel()
+	g, _ := hrpc.NewGet(ctx, []byte("t"), []byte("a-second"))
+	g.SetRegion(s.regs[0])
+	done := make(chan struct{})
+	go func() { s.rc.QueueRPC(g); close(done) }()
+	early := false
+	select {
+	case <-done:
+		early = true
+	case <-time.After(40 * time.Millisecond):
+	}
+	t0 := time.Now()
+	if mode == "cancel" {
+		cancel()
+	}
+	res, lat := "ctx", time.Duration(0)
+	if early {
+		res = "early:returned"
+	} else {
+		select {
+		case <-done:
+			lat = time.Since(t0)
+		case <-time.After(2 * time.Second):
+			res, lat = "blocked", 2*time.Second
+		}
+	}
+	// let everything go
+	go s.rc.Close()
+	for i := 0; i < 20; i++ {
+		for _, p := range s.v.Pending() {
+			if p.kind != "read" {
+				s.v.take(p)
+				p.ch <- gateRes{err: errVClosed}
+			}
+		}
+		time.Sleep(time.Millisecond)
+	}
+	return fmt.Sprintf("c13 wait busy-send-queue queue %s %d %s", mode, lat.Microseconds(), res)
 }
 
 // batchOwnCtx: a batch under a background context; one call's own context ends while its server
@@ -839,6 +996,9 @@ func init() {
 			for i := shard; i < n; i += nsh {
 				emit(concScenario(NewRNG(seed, fmt.Sprintf("c09-%d", i))))
 			}
+			if shard == 0 {
+				emit(probeAfterDeath())
+			}
 		})
 	}
 	props["C13"] = func(tier string, seed uint64, out *Out) {
@@ -852,6 +1012,8 @@ func init() {
 			}
 		}
 		jobs = append(jobs, batchOwnCtx)
+		jobs = append(jobs, func() string { return scanOpenScenario(false) }, func() string { return scanOpenScenario(true) })
+		jobs = append(jobs, func() string { return busyQueueScenario("cancel") }, func() string { return busyQueueScenario("deadline") })
 		runSharded("C13", tier, seed, out, 8, func(shard, nsh int, emit func(string)) {
 			for i := shard; i < len(jobs); i += nsh {
 				emit(jobs[i]())
